@@ -13,7 +13,7 @@ use crate::subjects::*;
 use serde_json::{json, Value};
 use std::marker::PhantomData;
 
-#[derive(Clone, Debug)]
+#[derive(Clone, Debug, PartialEq)]
 pub enum HOp {
     Add(usize, f64),
     Merge(usize, usize),
@@ -425,6 +425,9 @@ pub fn plan(tier: Tier) -> Plan {
     checks.push(pool::<H4>("finite/last-edge-differs", 3, 9));
     checks.push(pool::<H100>("finite/last-edge-differs", if q { 2 } else { 3 }, 9));
     checks.push(pool::<H100>("infinite-outer/differs", 2, 9));
+    checks.push(cross(PoolSpec::<H1> { variant: "finite/last-edge-differs", budget: 9, _h: PhantomData }, 4));
+    checks.push(cross(PoolSpec::<H2> { variant: "zero-width/same", budget: 9, _h: PhantomData }, 3));
+    checks.push(cross(PoolSpec::<H2> { variant: "signed-zero", budget: 9, _h: PhantomData }, 3));
     #[cfg(feature = "nightly")]
     for v in variants {
         checks.push(pool::<K1>(v, 5, 9));
